@@ -242,6 +242,10 @@ func (p *PostingsList) read(postingsOffset uint64, d *Dictionary) error {
 		return p.init1Hit(postingsOffset)
 	}
 
+	// a general list: p may be a reused list that last held a 1-hit term
+	p.docNum1Hit = 0
+	p.normBits1Hit = 0
+
 	// read the location of the freq/norm details
 	var n uint64
 	var read int
